@@ -4610,11 +4610,11 @@ impl Machine {
                     }
                     &Instruction::CallStoreBacktrackableGlobalVar => {
                         self.store_backtrackable_global_var();
-                        self.machine_st.p += 1;
+                        step_or_fail!(self.machine_st, self.machine_st.p += 1);
                     }
                     &Instruction::ExecuteStoreBacktrackableGlobalVar => {
                         self.store_backtrackable_global_var();
-                        self.machine_st.p = self.machine_st.cp;
+                        step_or_fail!(self.machine_st, self.machine_st.p = self.machine_st.cp);
                     }
                     &Instruction::CallStoreGlobalVar => {
                         self.store_global_var();
